@@ -57,6 +57,12 @@ package internal
 //@   ensures  no_override: result == nil ==> forall i int, j int :: 0 <= i && i < len(cfg.Chains) && 0 <= j && j < len(cfg.Chains[i].Filters) ==> !istype(cfg.Chains[i].Filters[j].Type, *configv1.Filter_OidcOverride)
 //@   ensures  shape: WFConfig(cfg) && cfg.Chains == old(cfg.Chains)
 //@   ensures  openid: result == nil ==> forall i int, j int :: 0 <= i && i < len(cfg.Chains) && 0 <= j && j < len(cfg.Chains[i].Filters) ==> (cfg.Chains[i].Filters[j].GetOidc() != nil ==> HasOpenID(cfg.Chains[i].Filters[j].GetOidc()))
+//@   ensures  logout_paths: result == nil ==> forall i int, j int :: 0 <= i && i < len(cfg.Chains) && 0 <= j && j < len(cfg.Chains[i].Filters) ==> LogoutOK(cfg.Chains[i].Filters[j].GetOidc())
+//@   loop 1 invariant errs_nonnil: forall k int :: 0 <= k && k < len(errs) ==> errs[k] != nil
+//@   loop 2 invariant errs_nonnil: forall k int :: 0 <= k && k < len(errs) ==> errs[k] != nil
+//@   loop 1 invariant lg1: len(errs) == 0 ==> forall i int, j int :: 0 <= i && i <= rangeindex1 && 0 <= j && j < len(cfg.Chains[i].Filters) ==> LogoutOK(cfg.Chains[i].Filters[j].GetOidc())
+//@   loop 2 invariant lg1: len(errs) == 0 ==> forall i int, j int :: 0 <= i && i <= rangeindex1 && 0 <= j && j < len(cfg.Chains[i].Filters) ==> LogoutOK(cfg.Chains[i].Filters[j].GetOidc())
+//@   loop 2 invariant lg2: len(errs) == 0 ==> forall j int :: 0 <= j && j <= rangeindex2 ==> LogoutOK(cfg.Chains[rangeindex1 + 1].Filters[j].GetOidc())
 //@   loop 1 invariant oid1: forall i int, j int :: 0 <= i && i <= rangeindex1 && 0 <= j && j < len(cfg.Chains[i].Filters) ==> (cfg.Chains[i].Filters[j].GetOidc() != nil ==> HasOpenID(cfg.Chains[i].Filters[j].GetOidc()))
 //@   loop 2 invariant oid1: forall i int, j int :: 0 <= i && i <= rangeindex1 && 0 <= j && j < len(cfg.Chains[i].Filters) ==> (cfg.Chains[i].Filters[j].GetOidc() != nil ==> HasOpenID(cfg.Chains[i].Filters[j].GetOidc()))
 //@   loop 2 invariant oid2: forall j int :: 0 <= j && j <= rangeindex2 ==> (cfg.Chains[rangeindex1 + 1].Filters[j].GetOidc() != nil ==> HasOpenID(cfg.Chains[rangeindex1 + 1].Filters[j].GetOidc()))
@@ -78,6 +84,7 @@ package internal
 //@   ensures  typed: result == nil ==> FiltersTyped(addr(l.Config))
 //@   ensures  resolved: result == nil ==> ChainsResolved(addr(l.Config))
 //@   ensures  openid: result == nil ==> forall i int, j int :: 0 <= i && i < len(addr(l.Config).Chains) && 0 <= j && j < len(addr(l.Config).Chains[i].Filters) ==> (addr(l.Config).Chains[i].Filters[j].GetOidc() != nil ==> HasOpenID(addr(l.Config).Chains[i].Filters[j].GetOidc()))
+//@   ensures  logout_paths: result == nil ==> forall i int, j int :: 0 <= i && i < len(addr(l.Config).Chains) && 0 <= j && j < len(addr(l.Config).Chains[i].Filters) ==> LogoutOK(addr(l.Config).Chains[i].Filters[j].GetOidc())
 //@   loop 1 invariant wf: l != nil && WFConfig(addr(l.Config)) && CallbacksParse(addr(l.Config)) && addr(l.Config).Chains == $rangeslice1
 //@   loop 1 invariant noover: addr(l.Config).DefaultOidcConfig == nil ==> forall i int, j int :: 0 <= i && i <= rangeindex1 && 0 <= j && j < len(addr(l.Config).Chains[i].Filters) ==> addr(l.Config).Chains[i].Filters[j].GetOidcOverride() == nil
 //@   loop 2 invariant wf: l != nil && WFConfig(addr(l.Config)) && CallbacksParse(addr(l.Config)) && addr(l.Config).Chains == $rangeslice1 && addr(l.Config).Chains[rangeindex1 + 1].Filters == $rangeslice2
